@@ -112,7 +112,7 @@ theorem nnr_handlePrevState_result (env : Env) (m : MetCallResult) (t : Tetraple
     · apply rel_bind NP (by unfold unwrapHash; split; exact rel_pure NP _; exact rel_panicM NP _); intro h
       apply rel_bind NP
       · apply rel_modifyER NP; intro c c' hc
-        have := sameObs_populateFromData _ _ _ _ _ _ _ _ hc
+        have := sameObs_populateFromData _ _ _ _ _ _ _ _ _ hc
         exact ⟨this.reqs, this.lcid⟩
       · intro _
         apply rel_bind NP
